@@ -27,8 +27,8 @@ ASSUMPTIONS = ["grey, executed but only partially asserted: what REUSE.toml file
 MIN_NONTRIVIAL = {"quick": 4000, "thorough": 60000}
 BATCH_TIMEOUT = {"quick": 1500, "thorough": 4 * 3600}
 
-OWN = ["none", "cop", "lic", "both", "unparseable", "binary"]
-DOT = ["absent", "empty", "cop", "lic", "both"]
+OWN = ["none", "cop", "lic", "both", "unparseable", "binary", "contrib"]
+DOT = ["absent", "empty", "cop", "lic", "both", "contrib"]
 PREC = ["closest", "aggregate", "override"]
 INFO = ["none", "cop", "lic", "both"]
 # level option: 0 = no REUSE.toml at this level; 1..12 = one table (prec, info)
@@ -39,11 +39,11 @@ PER_PROJECT = 48
 def generate(tier, seed):
     cells = []
     if tier == "quick":
-        for own, dot, l0, l1 in itertools.product(range(6), range(5), range(13), range(13)):
+        for own, dot, l0, l1 in itertools.product(range(len(OWN)), range(len(DOT)), range(13), range(13)):
             cells.append([own, dot, [l0, l1, 0]])
         n_s = 2000
     else:
-        for own, dot, l0, l1, l2 in itertools.product(range(6), range(5), range(13), range(13), range(13)):
+        for own, dot, l0, l1, l2 in itertools.product(range(len(OWN)), range(len(DOT)), range(13), range(13), range(13)):
             cells.append([own, dot, [l0, l1, l2]])
         n_s = 60000
     rng = rng_for(seed, "c04-sample")
@@ -57,7 +57,7 @@ def generate(tier, seed):
                 lv.append(rng.randint(1, 12))
             else:
                 lv.append([rng.randint(1, 12), rng.randint(1, 12)])  # two matching tables, the last one counts
-        cells.append([rng.randrange(6), rng.randrange(5), lv])
+        cells.append([rng.randrange(len(OWN)), rng.randrange(len(DOT)), lv])
     cases = []
     for i in range(0, len(cells), PER_PROJECT):
         cases.append({"kind": "toml", "cells": cells[i:i + PER_PROJECT], "base": i})
@@ -181,6 +181,9 @@ def write_cell(root, cell_dir, cell):
         f.write_text(lic + "content\n")
     elif own == "both":
         f.write_text(cop + lic + "content\n")
+    elif own == "contrib":
+        # names a contributor and nothing else: no copyright, no licence - whatever the tables supply still applies
+        f.write_text("# SPDX-FileContributor: Some Contributor\ncontent\n")
     elif own == "unparseable":
         f.write_text(cop + "# SPDX-License-Identifier: LicenseRef-own AND OR\ncontent\n")
     else:
@@ -191,6 +194,8 @@ def write_cell(root, cell_dir, cell):
             t += "SPDX-FileCopyrightText: 2000 Dot Holder\n"
         if dot in ("lic", "both"):
             t += "SPDX-License-Identifier: LicenseRef-dot\n"
+        if dot == "contrib":
+            t += "SPDX-FileContributor: Dot Contributor\n"
         (d / (FN["name"] + ".license")).write_text(t)
     if (cell[0] + cell[1]) % 3 == 0:
         # a file whose name merely ends in REUSE.toml is an ordinary file: whatever it holds says nothing about its neighbours
